@@ -126,6 +126,10 @@ func genC07(r *rand.Rand) *c07case {
 	base := randSeq(r, L, func(r *rand.Rand) byte { return "ACGT"[r.Intn(4)] })
 	cs.seqs = make([]string, nseq)
 	mode := r.Intn(7)
+	absent := r.Intn(8) == 0 // a base will be absent from the whole alignment
+	if absent && r.Intn(2) == 0 {
+		mode = 0 // ... and the rows identical: F81 / TN93 evaluate 0/0
+	}
 	if mode == 6 { // boundary: exactly 3/4 of the sites differ between rows 0 and 1 (JC69 argument exactly 0: +Inf)
 		L = 4 * (1 + r.Intn(5))
 		base = randSeq(r, L, func(r *rand.Rand) byte { return "ACGT"[r.Intn(4)] })
@@ -176,12 +180,28 @@ func genC07(r *rand.Rand) *c07case {
 		}
 		cs.seqs[k] = string(b)
 	}
+	if absent { // (or a single base is left): zero frequencies
+		proj := []map[byte]byte{{'G': 'A', 'g': 'a'}, {'G': 'A', 'g': 'a', 'T': 'C', 't': 'c'},
+			{'C': 'A', 'G': 'A', 'T': 'A', 'c': 'a', 'g': 'a', 't': 'a'}, {'A': 'G', 'a': 'g'}}[r.Intn(4)]
+		for k := range cs.seqs {
+			b := []byte(cs.seqs[k])
+			for j := range b {
+				if x, ok := proj[b[j]]; ok {
+					b[j] = x
+				}
+			}
+			cs.seqs[k] = string(b)
+		}
+	}
 	if r.Intn(30) == 0 {
 		cs.seqs[0] = cs.seqs[0][:L-1] + "?" // no code: error
 	}
 	cs.model = r.Intn(7)
 	if mode == 6 && r.Intn(2) == 0 {
 		cs.model = 2
+	}
+	if absent && r.Intn(2) == 0 {
+		cs.model = []int{4, 6, 5, 3}[r.Intn(4)]
 	}
 	if cs.model <= 1 && r.Intn(2) == 0 {
 		// raw / p-distance: gaps and ambiguity codes (N above all) often facing each other, for the gap modes
